@@ -391,6 +391,26 @@ def run(ctx):
     except Skip:
         pass
 
+    # every batch installs its own hook before anything of it can spawn: a start / busy decision never runs with the previous batch's hook
+    try:
+        hh17 = ctx.anchor_one("R17.8", "CLI action handler coroutine", [f_ for f_ in facts.fns_matching(r"^watchexec_cli::config::make_config::") if f_.kind == "coroutine"
+                                                                        and any(t.callee.is_("Handler::get_or_create_job") for _, t in f_.calls())])
+        en17 = pathx.Enum(interesting=lambda d_: strip_generics(d_).endswith(("Job::set_spawn_hook", "Job::run_async", "Job::start", "Job::restart", "Job::restart_with_signal", "Job::run")), max_paths=200000)
+        bad17 = []
+        n17 = 0
+        for q in en17.paths(thir.root(hh17)):
+            names = [strip_generics(e[1]).split("::")[-1] for e in q.ev if e[0] == "call"]
+            if not names:
+                continue
+            n17 += 1
+            if names[0] != "set_spawn_hook" or names.count("set_spawn_hook") != 1:
+                bad17.append(str(names))
+        ctx.require(n17 >= 10 and not bad17, "R17.8", "hook-per-batch", "on every handler path the batch's spawn hook is installed, unconditionally, before the job is started or asked to decide",
+                    hh17.loc(hh17.line), detail=str(sorted(set(bad17)))[:300],
+                    fail="the CLI handler can start or restart the command for a batch without having installed that batch's spawn hook (%s): the command is handed the previous batch's paths" % str(sorted(set(bad17)))[:200])
+    except Skip:
+        pass
+
     # the CLI hands the summary over from its spawn hook: every spawn must have run the hook (rule shared with C09 R09.2 / C18 R18.4)
     try:
         from .. import jobtask as _jt17, jobrules as _jr17
